@@ -65,6 +65,32 @@ def gaussJordan (M : Mat K) (n : Nat) : Option (Mat K) := Id.run do
             a := a.set! r2 row2
   return some (a.toList.map Array.toList)
 
+/-- determinant by elimination (exact over a field) -/
+def det (M : Mat K) : K := Id.run do
+  let n := M.length
+  let mut a : Array (Array K) := (M.map List.toArray).toArray
+  let mut d : K := 1
+  for c in [0:n] do
+    let mut piv : Option Nat := none
+    for r in [c:n] do
+      if piv.isNone && (a[r]!)[c]! != 0 then piv := some r
+    match piv with
+    | none => return 0
+    | some r =>
+      if r != c then
+        let rowR := a[r]!
+        let rowC := a[c]!
+        a := (a.set! r rowC).set! c rowR
+        d := -d
+      let pv := (a[c]!)[c]!
+      d := d * pv
+      let prow := a[c]!
+      for r2 in [c+1:n] do
+        let f := (a[r2]!)[c]! / pv
+        if f != 0 then
+          a := a.set! r2 ((a[r2]!).zipWith (fun x y => x - f * y) prow)
+  return d
+
 /-- solve `A X = B` (`A` is `n × n`, `B` has any number of columns) -/
 def solveMat (A B : Mat K) : Option (Mat K) :=
   let n := A.length
